@@ -141,6 +141,8 @@ def check_shift(ctx, kind, c, desc, sdesc):
 
 
 def check_text(ctx, kind, c, desc):
+    if recur.mixed_sign(desc["dur"]) and not (desc["n"] == 1 or recur.is_zero(desc["dur"])):
+        return  # no text form for a mixed-sign interval
     case = lambda: {"kind": "text", "mode": kind, "r": desc}  # noqa: E731
     sig = {"fmt": desc["fmt"], "single": desc["n"] == 1 or recur.is_zero(desc["dur"]),
            "nominal": recur.is_nominal(desc["dur"])}
@@ -167,7 +169,9 @@ def check_text(ctx, kind, c, desc):
     if ok and ok2 and (len(p1) != len(p2) or any(not (x == y) for x, y in zip(p1, p2))):
         ctx.violation("text_roundtrip_points", sig, case, [impl.sstr(p) for p in p1[:5]], [impl.sstr(p) for p in p2[:5]])
     if str(r2) != text:
-        ctx.violation("text_fixpoint", sig, case, text, str(r2))
+        # not demanded by the property (it asks for parse(str(r)) == r with the same points): e.g. a single-point
+        # start/second-point recurrence whose second point is another spelling of the start prints differently
+        ctx.count("text_not_a_fixpoint_but_equal")
 
 
 def _variants(kind, c, anchor, ddesc, n, fmt):
